@@ -25,4 +25,6 @@ def main (args : List String) : IO UInt32 := do
   match args with
   | ["arith"] => lineLoop stdin stdout Oratio.Driver.Arith.step; return 0
   | ["enc"] => stateLoop stdin stdout Oratio.Driver.EncD.step none; return 0
+  | ["ov"] => stateLoop stdin stdout Oratio.Driver.OvD.step none; return 0
+  | ["sat"] => stateLoop stdin stdout Oratio.Driver.SatD.step none; return 0
   | _ => IO.eprintln "usage: oratio_model <arith|...>"; return 2
